@@ -40,6 +40,11 @@ func catalogue(sc *issuer.Scenario, rng *rand.Rand) []issuer.Mut {
 		// ---- claim
 		{"claim-other-version", "reject", func(p *issuer.ProofJ, e *issuer.Env) { p.CoreClaim = issuer.S(altHex) }},
 		{"claim-unrelated", "reject", func(p *issuer.ProofJ, e *issuer.Env) { p.CoreClaim = issuer.S(unrelHex) }},
+		{"proof-of-other-credential", "reject", func(p *issuer.ProofJ, e *issuer.Env) {
+			// a completely valid proof, of another credential of the same issuer: only the
+			// claim/credential binding stands in the way
+			p.CoreClaim, p.Signature = issuer.S(unrelHex), issuer.S(sc.UnrelatedSig)
+		}},
 		{"claim-removed", "reject", func(p *issuer.ProofJ, e *issuer.Env) { p.CoreClaim = nil }},
 		{"claim-malformed", "reject", func(p *issuer.ProofJ, e *issuer.Env) { p.CoreClaim = issuer.S((*p.CoreClaim)[:100]) }},
 		// ---- auth claim / key (the escalating attack of D5)
@@ -49,6 +54,15 @@ func catalogue(sc *issuer.Scenario, rng *rand.Rand) []issuer.Mut {
 		{"attacker-key-auth-claim-nonce-aligned", "reject", func(p *issuer.ProofJ, e *issuer.Env) {
 			// the status entry follows the attacker's nonce and an honest-looking answer exists for it
 			p.Signature, p.IssuerData.AuthCoreClaim = issuer.S(attSig), issuer.S(attAuthHex)
+			p.IssuerData.CredentialStatus = issuer.StatusEntry("https://status.example/x", att.AuthNonce)
+			if a, err := sc.Issuer.RevocationAnswer(att.AuthNonce, false); err == nil {
+				e.Reg = []issuer.RegEntry{{Type: issuer.StatusType, Answer: a}}
+			}
+		}},
+		{"attacker-key-auth-claim-with-its-nonexistence-proof", "reject", func(p *issuer.ProofJ, e *issuer.Env) {
+			// the BJJ twin of D4: a genuine NON-existence proof of the attacker's auth claim in the
+			// honest claims tree, everything else consistent
+			p.Signature, p.IssuerData.AuthCoreClaim, p.IssuerData.MTP = issuer.S(attSig), issuer.S(attAuthHex), sc.AttackerAbsent.Clone()
 			p.IssuerData.CredentialStatus = issuer.StatusEntry("https://status.example/x", att.AuthNonce)
 			if a, err := sc.Issuer.RevocationAnswer(att.AuthNonce, false); err == nil {
 				e.Reg = []issuer.RegEntry{{Type: issuer.StatusType, Answer: a}}
@@ -179,18 +193,28 @@ func Scenarios(cfg *common.Config) []issuer.Params {
 	var ps []issuer.Params
 	sizes := []int{0, 1, 3, 12, 40}
 	pubs := []*bool{issuer.BP(true), issuer.BP(false), nil}
-	n := cfg.Pick(7, 40)
+	n := cfg.Pick(8, 40)
 	for i := 0; i < n; i++ {
-		p := issuer.Params{NClaims: sizes[i%len(sizes)], NRevoked: []int{0, 1, 5, 20}[i%4], OmitZero: i%2 == 0,
+		p := issuer.Params{NClaims: sizes[i%len(sizes)], OmitZero: i%2 == 0,
 			RootPos: []string{"index", "value"}[i%2], Updatable: i%3 == 0}
-		if cfg.Thorough() {
+		// revocation tree: empty in every fourth scenario (so that omitted / explicit zero
+		// roots both occur on honest bundles), else random and clustered nonces
+		emptyRev := i%4 == 0 || i%4 == 3
+		if !emptyRev {
+			p.NRevoked = []int{1, 5, 20}[i%3]
+			for d := 0; d <= rng.Intn(cfg.Pick(5, 30)); d += 1 + rng.Intn(3) {
+				p.RevDeep = append(p.RevDeep, d)
+			}
+		}
+		if cfg.Thorough() && i >= 8 {
 			p.NClaims = rng.Intn(41)
-			p.NRevoked = rng.Intn(21)
+			if !emptyRev {
+				p.NRevoked = rng.Intn(21)
+			}
 		}
 		p.Genesis = i%3 == 1
 		if p.Genesis {
 			p.Published = pubs[(i/3)%3]
-			// at genesis the revocation tree may be empty or not; roots tree is empty
 		} else {
 			p.Published = issuer.BP(true)
 		}
@@ -200,9 +224,6 @@ func Scenarios(cfg *common.Config) []issuer.Params {
 		if i%3 != 2 {
 			for d := 1; d <= 1+rng.Intn(cfg.Pick(6, 30)); d += 1 + rng.Intn(3) {
 				p.Deep = append(p.Deep, d)
-			}
-			for d := 0; d <= rng.Intn(cfg.Pick(5, 30)); d += 1 + rng.Intn(3) {
-				p.RevDeep = append(p.RevDeep, d)
 			}
 		}
 		ps = append(ps, p)
